@@ -294,10 +294,16 @@ def c14_regex_threading(ctx, F):
     """C14.S2: sequential composition in the regex → NFA expansion threads the continuation: once a
     piece was emitted (its expansion returned true), the next piece emitted on that path must
     continue into the state just created (`last_state_id()`), not into the caller's continuation."""
-    from taint import Taint
     fn = find_fn(ctx, F, "NfaBuilder::expand_regex", "S2")
-    if not fn:
-        return
+    if fn:
+        _c14_thread(ctx, F, fn, "expand_regex", True)
+    fn = find_fn(ctx, F, "NfaBuilder::expand_count", "S2")
+    if fn:
+        _c14_thread(ctx, F, fn, "expand_count", False)
+
+
+def _c14_thread(ctx, F, fn, label, arms):
+    from taint import Taint
     EMIT = ("expand_zero_or_one", "expand_one_or_more", "expand_zero_or_more", "expand_count", "NfaBuilder::expand_regex")
 
     def is_emit(n):
@@ -305,7 +311,7 @@ def c14_regex_threading(ctx, F):
     T = Taint(F, [fn], lambda n, f: is_emit(n)).run()
     ns_ids = set(fn.ids_named("next_state_id"))
     if not ns_ids:
-        ctx.bad("S2", "expand_regex:anchor", "parameter next_state_id not found")
+        ctx.bad("S2", label + ":anchor", "parameter next_state_id not found")
         return
     emits = []
     for pt, e in fn.points():
@@ -313,39 +319,56 @@ def c14_regex_threading(ctx, F):
             if is_emit(n):
                 emits.append((pt, n))
 
+    def is_last(e):
+        e = strip(e)
+        while e.get("k") == "ref" and str(e.get("name", "")).startswith("_") and fn.single_def(e["id"]) is not None:
+            e = strip(fn.single_def(e["id"]))
+        return e.get("k") == "call" and (e.get("fn") or "").endswith("last_state_id")
+
     class Thread(Monitor):
-        def elem(self, m, pt, e, s):
+        """state = (emitted since the continuation was last re-threaded, emitted at all on this path)"""
+
+        def elem(self, st, pt, e, s):
+            m, ever = st
             for n in own_walk(e):
                 if n.get("k") == "assign" and strip(n["l"]).get("k") == "ref" and strip(n["l"])["id"] in ns_ids:
+                    if is_last(n["r"]) and not ever:
+                        return Viol("the continuation is replaced by last_state_id() although no piece has been emitted on this path — the next piece then continues into whatever "
+                                    "state was created last (a sibling alternative's entry)", pt)
                     m = False
             for p2, n in emits:
                 if p2 == pt:
                     arg = strip(n["a"][-1])
+                    if is_last(arg) and not ever:
+                        return Viol("a piece is expanded into last_state_id() although no piece has been emitted on this path", pt)
                     while arg.get("k") == "ref" and str(arg.get("name", "")).startswith("_") and fn.single_def(arg["id"]) is not None:
                         arg = strip(fn.single_def(arg["id"]))
                     if m and arg.get("k") == "ref" and arg.get("id") in ns_ids:
                         return Viol("a second piece is expanded with the caller's continuation although the previous piece was emitted", pt)
-            return m
+            return (m, ever)
 
-        def edge(self, m, bid, edge, cond, truth, s):
+        def edge(self, st, bid, edge, cond, truth, s):
             if cond is not None and truth is not None and T.expr_tainted(cond, fn):
-                return bool(truth)
-            return m
+                return (bool(truth), st[1] or bool(truth))
+            return st
     # sequencing arms only: in the Alternation arm all alternatives deliberately share the continuation
-    starts = [e.to for b in fn.blocks.values() for e in b.succs if isinstance(e.lab, dict) and e.lab.get("name") in ("Repetition", "Concat")]
-    ctx.floor("sequencing arms (Repetition, Concat) of expand_regex", len(starts), 2)
+    if arms:
+        starts = [e.to for b in fn.blocks.values() for e in b.succs if isinstance(e.lab, dict) and e.lab.get("name") in ("Repetition", "Concat")]
+        ctx.floor("sequencing arms (Repetition, Concat) of expand_regex", len(starts), 2)
+    else:
+        starts = [min(fn.blocks)]
     v, s = None, None
     for st in starts:
         s = Search(fn, Thread(), budget=3000000)
-        v = s.run(False, start_block=st)
+        v = s.run((False, False), start_block=st)
         if v is not None:
             break
-    ctx.floor("piece expansions in expand_regex", len(emits), 8)
+    ctx.floor("piece expansions in " + label, len(emits), 8 if arms else 1)
     if v is None:
-        ctx.ok("S2", "expand_regex:continuation-threaded", "whenever a piece was emitted, the next piece on that path continues into last_state_id() (%d expansion sites, %d states)" % (len(emits), s.states),
+        ctx.ok("S2", label + ":continuation-threaded", "whenever a piece was emitted, the next piece on that path continues into last_state_id() (%d expansion sites, %d states)" % (len(emits), s.states),
                sample={"function": fn.name, "sites": len(emits)})
     else:
-        ctx.bad("S2", "expand_regex:continuation-not-threaded", "expand_regex: at %s %s — the two pieces are alternatives instead of a sequence (e.g. `x{n,}` then matches exactly n repetitions)" % (fn.loc(v.pt), v.msg),
+        ctx.bad("S2", label + ":continuation-not-threaded", label + ": at %s %s (sequential pieces of a regex are no longer chained correctly, e.g. `x{n,}` or `(a|b{0,2})c`)" % (fn.loc(v.pt), v.msg),
                 {"site": fn.loc(v.pt), "path": s.render_path(v.path)[-6:]})
 
 
